@@ -41,10 +41,16 @@ open XzVerif XzVerif.C04Sym
 
 /-! ## Bridges: the constants the theorems use are the constants of the source (Gen/C04.lean is regenerated) -/
 
-/-- Every constant and array size the theorems below mention equals what the compiled source says today. -/
+/-- THE BRIDGE FOR `LZMA_IN_REQUIRED`: the property needs the constant the code uses in its fast-path guard
+    (`rc_is_fast_allowed`: more than LZMA_IN_REQUIRED bytes remain) to be AT LEAST the worst-case consumption of one symbol,
+    which is 20 bytes (`in_required_20`, `in_required_20_decoder`: proved for the model, and attained — see the example after
+    `in_required_20_decoder`). Any larger value is equally safe (the fast loop is merely left a little earlier); a smaller one
+    breaks this obligation. -/
+theorem gen_in_required : 20 ≤ Gen.C04.LZMA_IN_REQUIRED := by decide
+
+/-- Every other constant and array size the theorems below mention equals what the compiled source says today. -/
 theorem gen_constants :
-    Gen.C04.LZMA_IN_REQUIRED = 20
-    ∧ Gen.C04.RC_TOP_VALUE = RangeDec.RC_TOP_VALUE ∧ Gen.C04.RC_SHIFT_BITS = RangeDec.RC_SHIFT_BITS
+    Gen.C04.RC_TOP_VALUE = RangeDec.RC_TOP_VALUE ∧ Gen.C04.RC_SHIFT_BITS = RangeDec.RC_SHIFT_BITS
     ∧ Gen.C04.RC_BIT_MODEL_TOTAL = RangeDec.RC_BIT_MODEL_TOTAL ∧ Gen.C04.RC_BIT_MODEL_TOTAL_BITS = RangeDec.RC_BIT_MODEL_TOTAL_BITS
     ∧ Gen.C04.RC_MOVE_BITS = RangeDec.RC_MOVE_BITS ∧ 2 ^ Gen.C04.RC_TOP_BITS = RangeDec.RC_TOP_VALUE
     ∧ Gen.C04.LZMA_LCLP_MAX = Lzma.LZMA_LCLP_MAX ∧ Gen.C04.LZMA_PB_MAX = Lzma.LZMA_PB_MAX
@@ -180,20 +186,23 @@ theorem prob_range_inv (p : Nat) (h : RangeDec.ProbInv p) :
 theorem symbol_shapes_ok : symbolShapes.all shapeOk = true := by decide +kernel
 
 /-- One LZMA symbol, whatever its path, the probabilities (in [31, 2017]) and the decoded bit values, started from
-    any range a previous symbol or `rc_reset` can leave (≥ 8192·31, normalised or not), reads at most 20 bytes =
-    `LZMA_IN_REQUIRED`; and it leaves a range ≥ 8192·31 again, so the bound holds for every symbol of a stream. -/
+    any range a previous symbol or `rc_reset` can leave (≥ 8192·31, normalised or not), reads at most 20 bytes (a statement
+    about the model alone; `gen_in_required` ties 20 to the code's `LZMA_IN_REQUIRED`); and it leaves a range ≥ 8192·31 again, so the bound holds for every symbol of a stream. -/
 theorem in_required_20 (ops : List Op) (r : Nat) (hshape : shapeOf ops ∈ symbolShapes) (hok : OpsOk ops)
     (hlo : 253952 ≤ r) (hhi : r < RangeDec.U32) :
-    (runR r ops).2 ≤ Gen.C04.LZMA_IN_REQUIRED ∧ 253952 ≤ (runR r ops).1 ∧ (runR r ops).1 < RangeDec.U32 := by
+    (runR r ops).2 ≤ 20 ∧ 253952 ≤ (runR r ops).1 ∧ (runR r ops).1 < RangeDec.U32 := by
   have hs : shapeOk (shapeOf ops) = true := List.all_eq_true.mp symbol_shapes_ok _ hshape
   exact symbol_bound_of_shape ops r hs hok.to0 hlo hhi
 
 /-- Hence the fast loop never reads past `in_size`: it runs only while `rc_is_fast_allowed()`, i.e. while more than
-    LZMA_IN_REQUIRED bytes remain. -/
+    LZMA_IN_REQUIRED bytes remain — with the value of LZMA_IN_REQUIRED the source has today, whatever it is, as long as
+    `gen_in_required` holds (the proof uses nothing else about the constant). -/
 theorem fast_loop_stays_in_input (ops : List Op) (r avail : Nat) (hshape : shapeOf ops ∈ symbolShapes) (hok : OpsOk ops)
     (hlo : 253952 ≤ r) (hhi : r < RangeDec.U32) (hfast : fastAllowed avail Gen.C04.LZMA_IN_REQUIRED = true) :
     (runR r ops).2 < avail := by
   have := (in_required_20 ops r hshape hok hlo hhi).1
+  have h20 := gen_in_required
+  generalize Gen.C04.LZMA_IN_REQUIRED = R at hfast h20
   unfold fastAllowed at hfast
   split at hfast
   · simp at hfast
@@ -213,7 +222,7 @@ theorem range_model_is_rangedec (rc : RangeDec.Rc) (p : Nat) (inp rest : List UI
 /-- THE SAME BOUND ON THE EXECUTABLE DECODER MODEL of b-c03 (`Lzma.decodeSymbol`: one symbol from SEQ_IS_MATCH up to its
     output step, with the bounds-checked `rc_*_safe` primitives). From any range a finished symbol or `rc_reset` leaves
     (≥ 8192·31, < 2^32) and a probability array whose slots are in [31, 2017], a symbol decode that completes has consumed at
-    most LZMA_IN_REQUIRED = 20 input bytes; and it leaves a range and probabilities satisfying the same conditions, so the
+    most 20 input bytes (≤ the code's LZMA_IN_REQUIRED by `gen_in_required`); and it leaves a range and probabilities satisfying the same conditions, so the
     bound holds for every symbol of a stream (`rc_reset` gives range 2^32 − 1, `lzma_decoder_reset` gives probabilities 1024).
     Proof (Lemmas/C04Walk.lean): a walk through the monadic code of `decodeSymbol` showing that the bits it decodes form one of
     the 203 `symbolShapes`, that range and cursor evolve exactly as `runR` says, and that every probability used is in
@@ -227,7 +236,7 @@ theorem in_required_20_decoder (s s' : Lzma.St) (eopmValid : Bool) (pend : Lzma.
     (hlo : 253952 ≤ s.range) (hhi : s.range < RangeDec.U32)
     (hp : ∀ i, i < s.probs.size → RangeDec.ProbInv (s.probs.getD i 0))
     (h : Lzma.decodeSymbol eopmValid s = .ok pend s') :
-    s.inPos ≤ s'.inPos ∧ s'.inPos ≤ s.inPos + Gen.C04.LZMA_IN_REQUIRED
+    s.inPos ≤ s'.inPos ∧ s'.inPos ≤ s.inPos + 20
     ∧ 253952 ≤ s'.range ∧ s'.range < RangeDec.U32
     ∧ (∀ i, i < s'.probs.size → RangeDec.ProbInv (s'.probs.getD i 0)) :=
   decodeSymbol_bytes symbol_shapes_ok eopmValid s s' pend hlo hhi hp h
@@ -242,6 +251,8 @@ theorem fast_loop_stays_in_input_decoder (s s' : Lzma.St) (eopmValid : Bool) (pe
     (h : Lzma.decodeSymbol eopmValid s = .ok pend s') :
     s'.inPos < s.inp.size := by
   have hb := (in_required_20_decoder s s' eopmValid pend hlo hhi hp h).2.1
+  have h20 := gen_in_required
+  generalize Gen.C04.LZMA_IN_REQUIRED = R at hfast h20
   unfold fastAllowed at hfast
   split at hfast
   · simp at hfast
